@@ -45,6 +45,7 @@ type Query {
   odd: Thing
   stamps: [Time]
   matrix: [[Int]]
+  stash(v: Vault, key: String!): String
   levels: [Size]
   vari(xs: [String]): String
   triple: String
@@ -954,6 +955,8 @@ func zooField(q *Query, obj interface{}, name string, args map[string]interface{
 			return o.Odd, nil
 		case "matrix":
 			return o.Matrix, nil
+		case "stash":
+			return "stash:" + CanonLite(map[string]interface{}(args)), nil
 		case "stamps":
 			return o.Stamps, nil
 		case "levels":
@@ -1278,6 +1281,23 @@ func (n *INode) Resolve(field *ggql.Field, args map[string]interface{}) (interfa
 	return wrapI(n.q, v, path, n.q.UseListResolver), nil
 }
 
+// vaultScalar is a scalar implemented in Go whose input coercion panics for the
+// value "boom".
+type vaultScalar struct {
+	ggql.Scalar
+}
+
+// CoerceIn implements ggql.InCoercer.
+func (t *vaultScalar) CoerceIn(v interface{}) (interface{}, error) {
+	if s, ok := v.(string); ok && s == "boom" {
+		panic("zoo: the Vault scalar cannot take this value")
+	}
+	return v, nil
+}
+
+// CoerceOut implements ggql.OutCoercer.
+func (t *vaultScalar) CoerceOut(v interface{}) (interface{}, error) { return v, nil }
+
 type badLeaf struct{}
 
 // ---------------------------------------------------------------------------
@@ -1453,6 +1473,12 @@ func NewZoo(q *Query, strat Strategy) (*Zoo, error) {
 		// (the other branch of metaCheck): full path + type name, and bare name
 		sdl = strings.Replace(sdl, "type Keeper {", "type Keeper @go(type: \"verif/workload.Keeper\") {", 1)
 		sdl = strings.Replace(sdl, "type Cell {", "type Cell @go(type: \"GridCell\") {", 1)
+	}
+	// the scalar Vault is implemented in Go by the application (its CoerceIn
+	// panics for one particular value: an application bug the caller of ggql
+	// recovers from, as an HTTP server does)
+	if err := z.Root.AddTypes(&vaultScalar{ggql.Scalar{Base: ggql.Base{N: "Vault"}}}); err != nil {
+		return nil, err
 	}
 	if err := z.Root.ParseString(sdl); err != nil {
 		return nil, err
